@@ -239,6 +239,10 @@ pub struct ForeignCa {
 	pub key: KeySpec,
 	pub ski: Option<Hex>,
 	pub digest: FDigest,
+	/// a name-constraint subtree of a kind rcgen has no variant for (in the excluded list?, position,
+	/// kind), which import skips: the supported subtrees around it must all come through
+	#[serde(default)]
+	pub nc_odd: Option<(bool, u8, u8)>,
 }
 
 pub fn foreign_ca() -> BoxedStrategy<ForeignCa> {
@@ -248,14 +252,15 @@ pub fn foreign_ca() -> BoxedStrategy<ForeignCa> {
 		prop::option::weighted(0.8, proptest::collection::vec(any::<u8>(), 1..24).prop_map(Hex)),
 		prop::sample::select(vec![FDigest::Sha256, FDigest::Sha384, FDigest::Sha512]),
 		gen::conformant_serial(),
+		prop::option::weighted(0.3, (any::<bool>(), any::<u8>(), 0u8..5)),
 	)
-		.prop_map(|(mut spec, key, ski, digest, serial)| {
+		.prop_map(|(mut spec, key, ski, digest, serial, nc_odd)| {
 			spec.serial = Some(serial);
 			spec.crl_dps.clear();
 			spec.use_aki = false;
 			spec.custom_exts.retain(|c| !c.critical);
 			spec.ekus.retain(|e| e.is_standard());
-			ForeignCa { spec, key, ski, digest }
+			ForeignCa { spec, key, ski, digest, nc_odd }
 		})
 		.boxed()
 }
@@ -269,6 +274,47 @@ pub fn forge_ca(f: &ForeignCa) -> Result<Vec<u8>, String> {
 pub fn forge_ca_with(f: &ForeignCa, flip: u16) -> Result<Vec<u8>, String> {
 	let name = FName::from_dn(&f.spec.dn);
 	let mut exts = forge::spec_extensions(&f.spec, f.ski.as_ref().map(|h| h.0.as_slice()), None);
+	if let Some((in_excluded, pos, kind)) = f.nc_odd {
+		use crate::der::{children, enc_oid, enc_seq, enc_tlv, read_single, Lints};
+		let odd_base = match kind % 5 {
+			0 => enc_tlv(0x86, b".example.com"),                                                       // URI
+			1 => enc_tlv(0x88, &[0x2a, 0x03, 0x04]),                                                  // registeredID
+			2 => enc_tlv(0xa0, &[enc_oid(&[1, 3, 6, 1, 4, 1, 311, 20, 2, 3]), enc_tlv(0xa0, &enc_tlv(0x0c, b"upn"))].concat()), // otherName
+			3 => enc_tlv(0x87, &[10, 0, 0, 0, 255]),                                                  // iPAddress of odd length
+			_ => enc_tlv(0xa5, &enc_tlv(0xa1, &enc_tlv(0x0c, b"party"))),                             // ediPartyName
+		};
+		let odd = enc_seq(&[odd_base]);
+		for e in exts.iter_mut() {
+			if !e.windows(5).any(|w| w == [0x06, 0x03, 0x55, 0x1d, 0x1e]) {
+				continue;
+			}
+			let l = Lints::new();
+			let t = read_single(e, &l, "extension")?;
+			let parts = children(t.content, &l)?;
+			let value = read_single(parts[parts.len() - 1].content, &l, "nameConstraints")?;
+			let lists = children(value.content, &l)?;
+			let mut new_lists: Vec<Vec<u8>> = Vec::new();
+			let want_tag = if in_excluded { 0xa1 } else { 0xa0 };
+			let mut done = false;
+			for lst in &lists {
+				if lst.raw[0] == want_tag {
+					let mut subs: Vec<Vec<u8>> = children(lst.content, &l)?.iter().map(|s| s.raw.to_vec()).collect();
+					let at = pos as usize % (subs.len() + 1);
+					subs.insert(at, odd.clone());
+					new_lists.push(enc_tlv(want_tag, &subs.concat()));
+					done = true;
+				} else {
+					new_lists.push(lst.raw.to_vec());
+				}
+			}
+			if !done {
+				continue;
+			}
+			let mut items: Vec<Vec<u8>> = parts[..parts.len() - 1].iter().map(|p| p.raw.to_vec()).collect();
+			items.push(enc_tlv(0x04, &enc_seq(&new_lists)));
+			*e = enc_seq(&items);
+		}
+	}
 	for (i, e) in exts.iter_mut().enumerate() {
 		if i < 16 && flip & (1 << i) != 0 {
 			let l = crate::der::Lints::new();
